@@ -72,6 +72,39 @@ def contentGet {α : Type} (c : List (Str × α)) (mime : Str) : Option α :=
         | some v => some v
         | none => lookup star c
 
+/-! #### the matching code as a step program (tied to the source by the regenerated table `Gen.MediaTypeMatch`) -/
+
+/-- the statement shapes of `Content.Get` / `parseMediaType` (see go/cmd/extract/mediatypematch.go) -/
+inductive Step
+  | emptyRet (key : Str)                    -- if mime == "" { return content[key] }
+  | tryMime                                 -- if v := content[mime]; v != nil { return v }
+  | cutFirst (c : Char)                     -- i := IndexByte(mime, c); if i < 0 { i = len(mime) }; mime = mime[:i]
+  | cutFirstOrNil (c : Char) (suffix : Str) -- i = IndexByte(mime, c); if i < 0 { return nil }; mime = mime[:i] + suffix
+  | retKey (key : Str)                      -- return content[key]
+  | prefixBefore (c : Char)                 -- (parseMediaType) the text before the first c, all of it if there is none
+  deriving DecidableEq, Repr
+
+/-- `m[:strings.IndexByte(m, c)]`, all of `m` when `c` does not occur -/
+def cutAt (c : Char) (m : Str) : Str := m.takeWhile (· ≠ c)
+
+/-- the interpreter of the step program of `Content.Get` -/
+def runSteps {α : Type} (cnt : List (Str × α)) : List Step → Str → Option α
+  | [], _ => none
+  | .emptyRet k :: r, m => if m = [] then lookup k cnt else runSteps cnt r m
+  | .tryMime :: r, m => (match lookup m cnt with | some v => some v | none => runSteps cnt r m)
+  | .cutFirst c :: r, m => runSteps cnt r (cutAt c m)
+  | .cutFirstOrNil c sfx :: r, m => if m.contains c then runSteps cnt r (cutAt c m ++ sfx) else none
+  | .retKey k :: _, _ => lookup k cnt
+  | .prefixBefore _ :: r, m => runSteps cnt r m
+
+/-- the program `contentGet` was written from; `Props/C06.lean` proves it equal to the regenerated table and
+`runSteps … contentGetProgram = contentGet` for every content map and header -/
+def contentGetProgram : List Step :=
+  [.emptyRet star, .tryMime, .cutFirst ';', .tryMime, .cutFirstOrNil '/' slashStar, .tryMime, .retKey star]
+
+/-- `parseMediaType` as a program: `base` is its meaning -/
+def parseMediaTypeProgram : List Step := [.prefixBefore ';']
+
 /-- the documented precedence as a candidate list (spec) -/
 def candidates (mime : Str) : List Str :=
   if mime = [] then [star] else
